@@ -47,7 +47,8 @@ func c10Encoder(c *Ctx) {
 	}
 	check := func(indices []int, rs [][]int32) {
 		c.Ev.Eval(1)
-		arr := verifhook.EncodeTable(indices, rs)
+		var arr []int32
+		c.Guard(fmt.Sprintf("table encoder on indices=%v rows=%v", indices, rs), nil, func() { arr = verifhook.EncodeTable(indices, rs) })
 		a64 := make([]int64, len(arr))
 		for i, v := range arr {
 			a64[i] = int64(v)
@@ -548,10 +549,12 @@ func checkC10(c *Ctx) error {
 						fmt.Fprintf(&diag, "panic: %v", rec)
 					}
 				}()
-				ok = verifhook.GenerateLexerOnly(dir, &diag, nil)
-				if ok {
-					fe = verifhook.ParseLox(dir, &diag, nil)
-				}
+				c.Guard("lexer generation (ParseLox + EmitLexer) on l.lox", map[string]string{"l.lox": lc.Lox}, func() {
+					ok = verifhook.GenerateLexerOnly(dir, &diag, nil)
+					if ok {
+						fe = verifhook.ParseLox(dir, &diag, nil)
+					}
+				})
 			}()
 			c.Ev.Eval(1)
 			rp := func(why string) *Replay {
